@@ -17,7 +17,7 @@ def isSelfSize : Member → Bool
   | .field _ .selfSize _ => true
   | _ => false
 
-private theorem encMembers_cons_general (m : Member) (ms : Members) (env : Env) (v : Val) (vs : List Val)
+theorem encMembers_cons_general (m : Member) (ms : Members) (env : Env) (v : Val) (vs : List Val)
     (hm : isSelfSize m = false) :
     encMembers (.cons m ms) env (v :: vs) =
       (match encMember m env v with
@@ -43,7 +43,7 @@ private theorem wfMs_cons (m : Member) (ms : Members) (h : wfMs (.cons m ms) = t
     simp only [wfMs, Bool.and_eq_true] at h
     exact ⟨h.1.2, h.2, fun _ => h.1.1⟩
 
-private theorem encMembers_nil (env : Env) (vs : List Val) (b : Bytes) (env' : Env)
+theorem encMembers_nil (env : Env) (vs : List Val) (b : Bytes) (env' : Env)
     (h : encMembers .nil env vs = some (b, env')) : vs = [] ∧ b = [] ∧ env' = env := by
   cases vs with
   | nil => simp only [encMembers, Option.some.injEq, Prod.mk.injEq] at h; exact ⟨rfl, h.1.symm, h.2.symm⟩
